@@ -112,16 +112,7 @@ class Weights:
 def d1(chk, prog):
     chk.clause("D1", "right bins, right operand; statistic registry and CLI classes; skip_low")
     fi = prog.fn(f"{SM}.do_segmetrics")
-    # registry (structural)
-    d = [n for n in own_nodes(fi.node) if isinstance(n, ast.Assign) and norm(n.targets[0]) == "stat_funcs" and isinstance(n.value, ast.Dict)]
-    if not d:
-        raise AnalysisError("do_segmetrics: stat_funcs vanished")
-    got = {k.value: norm(v) for k, v in zip(d[0].value.keys, d[0].value.values)}
-    want = dict(LOC, **SPR)
-    bad = {k: got.get(k) for k, v in want.items() if v is not None and got.get(k) != v}
-    ok = not bad and set(got) == set(LOC) | set(SPR) | set(INT) and "ttest_1samp(a, 0.0" in got.get("p_ttest", "") and got.get("ci", "").startswith("make_ci_func(alpha, bootstraps, smoothed)") \
-        and got.get("pi", "") == "make_pi_func(alpha)"
-    chk.decide(ok, "statistic-registry", f"stat_funcs binds {len(got)} names to the named functions", f"{fi.qn}::stat_funcs", fi.loc(d[0]), f"statistic names bound to the wrong function: {bad or got}")
+    # which function each statistic name is bound to is decided by the tagged interpretation below (every name is requested there)
     cmds = prog.module("cnvlib.commands")
     flags = []
     for n in ast.walk(cmds.tree):
